@@ -27,6 +27,7 @@ BUILDS = {"norm": [],
 ENGINES = ["interp", "gen1"]
 DRV = os.path.join(LEAN, ".lake", "build", "bin", "mirdrv_c04")
 C01_KNOWN_ABORT = re.compile(r"Fatal failure in matching insn:\s+\w+s\s+hr\d+, hr\d+, i64:")
+OVF_BR = ("bo", "bno", "ubo", "ubno")
 
 
 def limits():
@@ -141,9 +142,12 @@ def compare_program(exes, text, lean_text, entries, argsets, work, tag, always):
             row[b] = view(v[k]) if len(v) == n else view(v[0] if v else None)
         ref = row.get("core", row[names[0]])
         if any(row[b] != ref for b in names):
+            def brief(v):
+                if v[0] in ("fatal", "err", "engines-differ", "missing"):
+                    return [str(x) for x in v]
+                return [v[0], "buffer+log " + ("same as MirCore" if v[1:] == ref[1:] else "differ")]
             fails.append({"index": k, "entry": entries[k // len(argsets)], "args": argsets[k % len(argsets)],
-                          "views": {b: list(row[b])[:1] + ([("buffer " + ("same" if row[b][1:] == ref[1:] else "differs"))] if len(row[b]) > 1 else [])
-                                    for b in names}})
+                          "views": {b: brief(row[b]) for b in names}})
             break
     return fails, n * (len(ENGINES) * len(exes) + (2 if lean_text is not None else 0))
 
@@ -158,15 +162,22 @@ def known_c01(fails):
 
 
 # ------------------------------------------------------------------ shrinking (best effort)
-def shrink(exes, P_text, entries, args, work, always, budget=60):
-    """remove single non-structural instructions while the MirCore-vs-library difference persists"""
+def fail_kind(views):
+    """coarse class of a failure: which builds deviate from MirCore and how"""
+    ref = views.get("core")
+    return tuple(sorted((b, v[0] if v[0] in ("fatal", "err", "engines-differ", "missing") else "value")
+                        for b, v in views.items() if v != ref))
+
+
+def shrink(exes, P_text, entries, args, work, always, kind, budget=60):
+    """remove single instructions while the program stays well defined for MirCore and the library
+    deviates from it in the same way (an overflow instruction stays with its branch)"""
     lines = P_text.split("\n")
 
     def failing(ls):
         txt = "\n".join(ls)
         try:
-            tp = c04_gen.TextProg(txt)
-            lt = c04_gen.to_lean(tp)
+            lt = c04_gen.to_lean(c04_gen.TextProg(txt))
         except Exception:
             return False
         if lt is None:
@@ -176,20 +187,25 @@ def shrink(exes, P_text, entries, args, work, always, budget=60):
             return False
         v = f[0]["views"]
         if "core" not in v or v["core"][0] in ("err", "fatal", "missing"):
-            return False      # the reduced program must stay well defined for the oracle
-        return any(v[b][0] == "fatal" and "rc=3" in str(v[b]) for b in v) is False or True
+            return False
+        if any(x[0] == "fatal" and "mir-error" in " ".join(x) for x in v.values()) and \
+                not any(k[1] == "fatal" for k in kind):
+            return False
+        return fail_kind(v) == kind
 
-    def removable(l):
+    def removable(ls, i):
+        l = ls[i]
         t = l.split()
-        if not t or l.rstrip().endswith(":") or t[0] in ("endfunc", "endmodule", "local", "export", "import", "ret", "jmp"):
+        if not t or l.rstrip().endswith(":") or t[0].endswith(":"):
             return False
-        if ": " in l and t[0].endswith(":"):
+        if t[0] in ("endfunc", "endmodule", "local", "export", "import", "ret", "jmp", "module") or t[0] in OVF_BR:
             return False
-        return t[0] not in ("bo", "bno", "ubo", "ubno")
+        nxt = ls[i + 1].split() if i + 1 < len(ls) else []
+        return not (nxt and nxt[0] in OVF_BR)
     tries = 0
     i = 0
     while i < len(lines) and tries < budget:
-        if removable(lines[i]):
+        if removable(lines, i):
             cand = lines[:i] + lines[i + 1:]
             tries += 1
             if failing(cand):
@@ -419,9 +435,7 @@ def body(ck, quick, exes, lower_exe, work, always):
     ck.stage("programs", programs=nprog, with_mircore=ncore, failures=len(fails))
     classes = {}
     for idx, f in fails:
-        key = tuple(sorted((b, v[0] if v[0] in ("fatal", "err", "engines-differ", "missing") else "value") for b, v in f["views"].items()
-                           if v != f["views"].get("core", v)))
-        classes.setdefault(key, []).append((idx, f))
+        classes.setdefault(fail_kind(f["views"]), []).append((idx, f))
     reported = 0
     for key, fl in classes.items():
         idx, f = fl[0]
@@ -429,11 +443,11 @@ def body(ck, quick, exes, lower_exe, work, always):
         text = P.text()
         if reported < 3:
             try:
-                text = shrink(exes, text, [f["entry"]], f["args"], work, always, budget=40 if quick else 150)
+                text = shrink(exes, text, [f["entry"]], f["args"], work, always, key, budget=40 if quick else 150)
             except Exception as ex:
                 ck.log("shrink failed:", ex)
         if reported < 6:
-            ck.violation({"stage": "programs", "entries": [f["entry"]], "args": list(f["args"]), "mir": text,
+            ck.violation({"stage": "programs", "entries": [f["entry"]], "args": list(f["args"]), "mir": text, "mir_unshrunk": P.text(),
                           "model_output": f["views"].get("core"), "impl_output": {b: v for b, v in f["views"].items() if b != "core"},
                           "same_class_count": len(fl), "engines": ENGINES, "builds": {b: " ".join(BUILDS[b]) for b in BUILDS},
                           "how_to_rerun": "./check C04 --replay <this file>"},
